@@ -112,6 +112,10 @@ class Emitter:
             a('%s  std::size_t %s = 0;' % (ind, iv))
             if cursor:
                 a('%s  for(auto %s : %s.cursor_range(%s)) {' % (ind, ev, gv, cursor))
+            elif mode == "ra" and g.flat:
+                # flat groups are random-access ranges: by index here, by iteration in the by-tag reader
+                a('%s  for(std::size_t x_%s = 0; x_%s < (std::size_t)%s.size(); x_%s++) { auto %s = %s[(typename decltype(%s)::size_type)x_%s];'
+                  % (ind, iv, iv, gv, iv, ev, gv, gv, iv))
             else:
                 a('%s  for(auto %s : %s) {' % (ind, ev, gv))
             ek = self.fresh("k")
